@@ -147,6 +147,13 @@ def run(ctx):
             rng = T.find(itn, lambda x: isinstance(x, tuple) and x[0] == "agg" and (x[2] or "").endswith("ops::Range")) if itn else None
             ok = rng is not None and T.is_const_int(rng[4][0], 0) and T.affine(rng[4][1]) == Aff(0, {("path", "self", "params"): 1})
             why = "loop range is %s (need 0..params)" % (term_str(rng) if rng else term_str(itn) if itn else None)
+            if not ok and itn is not None:
+                # the same count as an iteration over the 2-byte entries of the type table: chunks_exact(2) of a slice of 2*params bytes
+                ch = T.find(itn, lambda x: T.is_call(x, r"slice::<impl \[T\]>::chunks_exact$"))
+                if ch is not None and T.is_const_int(ch[2][1], 2):
+                    cb, coff, cln = cursor.locate(ch[2][0])
+                    ok = cln is not None and cln == Aff(0, {("path", "self", "params"): 2})
+                    why = "loop iterates chunks_exact(2) of a slice of %r bytes (need 2*params)" % (cln,)
             if ok:
                 # one push per iteration
                 cnts = set()
